@@ -56,6 +56,32 @@ Theorem C01_reader_timestamps c crit t0 off ops :
                                  /\ family_in_order c (snap_of x) = closed ++ [cur]).
 Proof. exact (timestamps_reader c crit t0 off ops). Qed.
 
+Require Import FL.Flw.TsdInv FL.Flw.TsdRun FL.Flw.TsdTheorems.
+(* TimestampsDirect naming (no rCURRENT: each file carries the second in which it was started): the same *)
+Theorem C01_stream_timestampsdirect c crit t0 off ops :
+  tsdcfg c crit -> tag_ok c -> Forall basic_op ops -> Forall tick_ok ops ->
+  (0 <= t0 + ts_e c off)%Z -> (t0 + elapsed ops + ts_e c off < sec_max)%Z -> (N.of_nat (length ops) <= usize_max)%N ->
+  let f := wfs (s_w (fst (run (sys0 t0 off) (OStart c :: ops ++ [OStop])))) in
+  (names f = [] /\ written ops = [])
+  \/ exists keys files,
+       files <> []
+       /\ tsd_view c (ts_e c off) f keys files
+       /\ concat files = written ops
+       /\ keys_ok keys
+       /\ (forall k, In k keys -> (t0 <= fst k <= t0 + elapsed ops)%Z).
+Proof. exact (timestampsdirect_stream c crit t0 off ops). Qed.
+
+(* ... and the oracle's reader reads them in that order *)
+Theorem C01_reader_timestampsdirect c crit t0 off ops :
+  tsdcfg c crit -> tag_ok c -> not_gz c -> Forall basic_op ops -> Forall tick_ok ops ->
+  (0 <= t0 + ts_e c off)%Z -> (t0 + elapsed ops + ts_e c off < sec_max)%Z -> (N.of_nat (length ops) <= usize_max)%N ->
+  let x := fst (run (sys0 t0 off) (OStart c :: ops ++ [OStop])) in
+  concat (family_in_order c (snap_of x)) = written ops
+  /\ exists keys files, tsd_view c (ts_e c off) (wfs (s_w x)) keys files /\ keys_ok keys
+                        /\ (forall k, In k keys -> (t0 <= fst k <= t0 + elapsed ops)%Z)
+                        /\ family_in_order c (snap_of x) = files.
+Proof. exact (timestampsdirect_reader c crit t0 off ops). Qed.
+
 Check C01_stream_numbers.
 Print Assumptions C01_stream_numbers.
 Print Assumptions C01_oracle_sound.
@@ -65,3 +91,7 @@ Check C01_stream_timestamps.
 Print Assumptions C01_stream_timestamps.
 Check C01_reader_timestamps.
 Print Assumptions C01_reader_timestamps.
+Check C01_stream_timestampsdirect.
+Print Assumptions C01_stream_timestampsdirect.
+Check C01_reader_timestampsdirect.
+Print Assumptions C01_reader_timestampsdirect.
